@@ -219,6 +219,103 @@ fn empty_cells(r: &Report, t: &Type, st: &[AtomicU64; 3]) {
     }
 }
 
+// ------------------------------------------------------------------------------------------------
+// UDT identity: a dynamic UDT value of another (keyspace, type name) must be refused, however similar the name
+
+fn udt_name_cells(r: &Report) {
+    let fields_t = vec![("a".to_string(), t_int()), ("b".to_string(), t_text())];
+    let mk_val = |ks: &str, name: &str| CqlValue::UserDefinedType {
+        keyspace: ks.to_string(),
+        name: name.to_string(),
+        fields: vec![("a".to_string(), Some(CqlValue::Int(7))), ("b".to_string(), Some(CqlValue::Text("ab".into())))],
+    };
+    let swapcase = |x: &str| -> String { x.chars().map(|c| if c.is_ascii_lowercase() { c.to_ascii_uppercase() } else { c.to_ascii_lowercase() }).collect() };
+    let capital = |x: &str| -> String {
+        let mut c = x.chars();
+        match c.next() {
+            Some(f) => f.to_ascii_uppercase().to_string() + &c.as_str().to_ascii_lowercase(),
+            None => String::new(),
+        }
+    };
+    let mut ok = 0u64;
+    let mut controls = 0u64;
+    for (tks, tname) in [("myks", "point"), ("MyKs", "Point"), ("k", "t")] {
+        let target = Type::Udt { keyspace: tks.to_string(), name: tname.to_string(), fields: fields_t.clone() };
+        // (label, keyspace, name) - all different from the target's identity unless labelled exact
+        let mut variants: Vec<(String, String, String)> = vec![("exact".into(), tks.into(), tname.into())];
+        let mut push = |label: &str, ks: String, name: String| {
+            if (ks.as_str(), name.as_str()) != (tks, tname) && !variants.iter().any(|(_, k, n)| *k == ks && *n == name) {
+                variants.push((label.to_string(), ks, name));
+            }
+        };
+        for (l, f) in [("upper", &(|x: &str| x.to_ascii_uppercase()) as &dyn Fn(&str) -> String), ("lower", &|x: &str| x.to_ascii_lowercase()), ("swapcase", &swapcase), ("capitalised", &capital)] {
+            push(&format!("name-case-{l}"), tks.to_string(), f(tname));
+            push(&format!("keyspace-case-{l}"), f(tks), tname.to_string());
+            push(&format!("both-case-{l}"), f(tks), f(tname));
+        }
+        push("name-suffix", tks.into(), format!("{tname}s"));
+        push("name-suffix-space", tks.into(), format!("{tname} "));
+        push("name-prefix", tks.into(), format!("x{tname}"));
+        push("name-truncated", tks.into(), tname[..tname.len() - 1].to_string());
+        push("name-quoted", tks.into(), format!("\"{tname}\""));
+        push("name-empty", tks.into(), String::new());
+        push("keyspace-suffix", format!("{tks}2"), tname.into());
+        push("keyspace-prefix", format!("x{tks}"), tname.into());
+        push("keyspace-truncated", tks[..tks.len() - 1].to_string(), tname.into());
+        push("keyspace-empty", String::new(), tname.into());
+        push("swapped-keyspace-and-name", tname.into(), tks.into());
+        push("qualified-name-in-name", tks.into(), format!("{tks}.{tname}"));
+        push("other", "other".into(), "thing".into());
+        for (label, vks, vname) in &variants {
+            let exact = label == "exact";
+            let bad = mk_val(vks, vname);
+            let good = mk_val(tks, tname);
+            let outer = Type::Udt { keyspace: tks.to_string(), name: "outer".to_string(), fields: vec![("a".to_string(), t_int()), ("b".to_string(), target.clone())] };
+            let sites: Vec<(&str, Type, CqlValue)> = vec![
+                ("top", target.clone(), bad.clone()),
+                ("list-2nd-element", Type::List(Box::new(target.clone())), CqlValue::List(vec![good.clone(), bad.clone()])),
+                ("set-element", Type::Set(Box::new(target.clone())), CqlValue::Set(vec![bad.clone()])),
+                ("map-value", Type::Map(Box::new(t_int()), Box::new(target.clone())), CqlValue::Map(vec![(CqlValue::Int(1), bad.clone())])),
+                ("tuple-field", Type::Tuple(vec![t_int(), target.clone()]), CqlValue::Tuple(vec![Some(CqlValue::Int(1)), Some(bad.clone())])),
+                ("udt-field", outer, CqlValue::UserDefinedType { keyspace: tks.to_string(), name: "outer".to_string(), fields: vec![("a".to_string(), Some(CqlValue::Int(1))), ("b".to_string(), Some(bad.clone()))] }),
+                ("vector-element", Type::Vector(Box::new(target.clone()), 2), CqlValue::Vector(vec![good.clone(), bad.clone()])),
+            ];
+            for (site, col, val) in sites {
+                for mode in [0u8, 1, 2] {
+                    r.eval(1);
+                    let ct = with_frozen(mode, || column_type(&col));
+                    let p = probe_value(&val, &ct);
+                    let case = || json!({"leg": "matrix", "part": "udt-names", "variant": label, "site": site, "target": format!("{tks}.{tname}"), "value": format!("{vks}.{vname}"), "frozen": mode});
+                    if let Some(c) = p.corrupt.as_ref().or(p.panic.as_ref()) {
+                        r.violation(&format!("matrix-udt-name:panic-or-corrupt:{site}"), &format!("UDT value {vks}.{vname} bound ({site}) to a column of type {tks}.{tname}: {c}"), case());
+                    } else if exact {
+                        if !p.accepted || !p.grew_by_one {
+                            r.violation(&format!("matrix-udt-name:same-type-refused:{site}"), &format!("UDT value {vks}.{vname} ({site}) refused for its own type: {}", p.err), case());
+                        } else {
+                            controls += 1;
+                        }
+                    } else if p.accepted {
+                        r.violation(
+                            &format!("matrix-udt-name:other-type-accepted:{}:{site}", label.split('-').take(2).collect::<Vec<_>>().join("-")),
+                            &format!("a value of user-defined type {vks:?}.{vname:?} ({label}) was accepted ({site}) for a column of type {tks:?}.{tname:?} and its bytes written"),
+                            case(),
+                        );
+                    } else if !p.state_intact {
+                        r.violation(&format!("matrix-udt-name:reject-left-bytes:{site}"), &format!("UDT value {vks}.{vname} ({site}) refused for {tks}.{tname} but the value list changed"), case());
+                    } else if p.root != "typecheck" {
+                        r.violation(&format!("matrix-udt-name:error-kind:{site}"), &format!("UDT value {vks}.{vname} ({site}) refused with a {} error, not a type-check error: {}", p.root, p.err), case());
+                    } else {
+                        ok += 1;
+                    }
+                }
+            }
+        }
+    }
+    r.counters.add("udt_name_mismatch_cells_refused", ok);
+    r.counters.add("udt_name_exact_controls_accepted", controls);
+    r.nontrivial(ok);
+}
+
 struct MatrixStats {
     cells: [[AtomicU64; 4]; 3], // [rel][outcome: accepted, rejected-typecheck, rejected-other, n/a]
     de_cells: [[AtomicU64; 2]; 3],
@@ -396,6 +493,7 @@ pub fn run_matrix(r: &Report) {
     if !idle.is_empty() && r.violation_count() == 0 {
         vcore::machinery_error(&format!("matrix rows without a single accepted Accept cell (table or relation broken): {idle:?}"));
     }
+    udt_name_cells(r);
     let names = ["accept", "reject", "dontcare"];
     let outs = ["accepted", "refused_typecheck_root", "refused_other_root"];
     for (i, n) in names.iter().enumerate() {
@@ -421,7 +519,7 @@ pub fn run_matrix(r: &Report) {
             r.violation("matrix-empty:predicate-disagrees", &format!("ColumnType::supports_special_empty_value() = {got} for {t}"), json!({"leg": "matrix", "part": "empty", "site": "top", "type": t.to_string(), "frozen": 0}));
         }
     }
-    r.set_rule("E-ENUM full matrix. Rows: every static carrier of the C01 table (795: 31 owned bases x wrappers, borrowed carriers, secrecy, CqlValue inside static wrappers) and the dynamic value type shaped as each of ~110 value types. Columns: 20 natives, all depth-1 types (list/set/vector/map/tuple/UDT over all natives), depth-2 types (quick: constructors over the depth-1 types of int/text/blob/boolean + every carrier's documented depth-2 types; thorough: over every depth-1 type). Every column type is used with its collections/UDTs non-frozen and all frozen (full rows; in quick the all-frozen variant of depth-2 types is limited to cells the relation does not call Reject), and nested-only frozen (Accept cells): the relation does not depend on the flag. The empty value: CqlValue::Empty at top level and (column types of depth <= 1) as list/set element, map key/value, tuple field and UDT field, and MaybeEmpty::<i32>::Empty, against the pinned table (counter, duration, list, set, map, UDT: must be refused with a type-check error and leave the list intact; other natives: must be accepted; tuple/vector: undetermined). Each cell: serialize a witness with content at every level after one bound value + (static carriers) deserialize type_check, judged against the three-valued relation Accept (documented pair) / Reject (wire shapes differ) / DontCare. distinct_nontrivial = cells decided by the relation (Accept accepted + Reject refused), ser and de.");
+    r.set_rule("E-ENUM full matrix. Rows: every static carrier of the C01 table (795: 31 owned bases x wrappers, borrowed carriers, secrecy, CqlValue inside static wrappers) and the dynamic value type shaped as each of ~110 value types. Columns: 20 natives, all depth-1 types (list/set/vector/map/tuple/UDT over all natives), depth-2 types (quick: constructors over the depth-1 types of int/text/blob/boolean + every carrier's documented depth-2 types; thorough: over every depth-1 type). Every column type is used with its collections/UDTs non-frozen and all frozen (full rows; in quick the all-frozen variant of depth-2 types is limited to cells the relation does not call Reject), and nested-only frozen (Accept cells): the relation does not depend on the flag. The empty value: CqlValue::Empty at top level and (column types of depth <= 1) as list/set element, map key/value, tuple field and UDT field, and MaybeEmpty::<i32>::Empty, against the pinned table (counter, duration, list, set, map, UDT: must be refused with a type-check error and leave the list intact; other natives: must be accepted; tuple/vector: undetermined). UDT identity: a dynamic UDT value whose (keyspace, type name) differs from the column type's only in case (keyspace and name separately and together), by a prefix/suffix/truncation/quoting, by swapping keyspace and name, or by being empty, with the same fields, must be refused with a type-check error and no bytes written - at top level, as 2nd list element, set element, map value, tuple field, UDT field and vector element, for three target names and the three frozen variants; the exact identity is the accepted control. Each cell: serialize a witness with content at every level after one bound value + (static carriers) deserialize type_check, judged against the three-valued relation Accept (documented pair) / Reject (wire shapes differ) / DontCare. distinct_nontrivial = cells decided by the relation (Accept accepted + Reject refused), ser and de.");
     r.set_exhaustive(true);
     r.assume("Accept = pairs listed in docs/source/data-types (nested structurally, incl. Box/Arc/Cow/Option/MaybeUnset/MaybeEmpty/secrecy wrappers); Reject = different native type (ascii/text interchangeable), sequence vs map vs tuple vs UDT vs vector, vector dimension mismatch, Rust tuple longer than the CQL tuple, UDT of another name or with a field the column type lacks, or any component pair that is Reject; everything else (set-like carrier on a list column, shorter Rust tuple, zero-dimensional vectors, list value on a 1-dimensional vector...) is DontCare");
     r.assume("witness values are non-null and non-empty at every level: null / empty collections carry no element bytes and are accepted for any element type (not a mismatch on the wire)");
@@ -1543,6 +1641,10 @@ pub fn run_rows(r: &Report) {
 
 pub fn replay(r: &Report, case: &serde_json::Value) {
     match case["leg"].as_str() {
+        Some("matrix") if case["part"].as_str() == Some("udt-names") => {
+            println!("replaying the UDT-identity cells (case: {case})");
+            udt_name_cells(r);
+        }
         Some("matrix") => {
             let t = refv::parse_type(case["type"].as_str().unwrap_or("")).unwrap_or_else(|e| vcore::machinery_error(&format!("replay: bad type {e}")));
             let mode = case["frozen"].as_u64().unwrap_or(0) as u8;
